@@ -27,6 +27,7 @@ pub mod session { pub use crate::Session; }
 //@ struct @derive_expanded.rs :: SkipTuple
 //@ enum @derive_expanded.rs :: Shape
 //@ enum @derive_expanded.rs :: Either
+//@ enum @derive_expanded.rs :: Wide
 
 // ---------------------------------------------------------------- oracle: documented derive format
 // structs: non-skipped fields in declaration order; enums: variant index as usize, then the non-skipped fields
@@ -239,6 +240,45 @@ pub proof fn lemma_either_split<T: Wire, U: Wire>(s: &Either<T, U>, tail: Seq<u8
         match (a, b) {
             (Either::L(x), Either::L(y)) => { T::prefix_free(x, y, ta, tb); }
             (Either::R(x), Either::R(y)) => { U::prefix_free(x, y, ta, tb); }
+            _ => {}
+        }
+    }
+//@ member decode
+//@ head
+        broadcast use lemma_cat_assoc, lemma_cat_empty;
+//@ end
+
+// ---------------------------------------------------------------- an enum with more than 128 variants
+// the variant tag is a usize on the wire: one LEB128 byte below 128, two bytes from index 128 on -- encode and decode must
+// agree on that width (a fixture with a handful of variants cannot tell `read_u8` from `read_usize`)
+pub open spec fn wide_idx(s: &Wide) -> usize {
+    match s { Wide::V0 => 0, Wide::V1 => 1, Wide::V2 => 2, Wide::V3 => 3, Wide::V4 => 4, Wide::V5 => 5, Wide::V6 => 6, Wide::V7 => 7, Wide::V8 => 8, Wide::V9 => 9, Wide::V10 => 10, Wide::V11 => 11, Wide::V12 => 12, Wide::V13 => 13, Wide::V14 => 14, Wide::V15 => 15, Wide::V16 => 16, Wide::V17 => 17, Wide::V18 => 18, Wide::V19 => 19, Wide::V20 => 20, Wide::V21 => 21, Wide::V22 => 22, Wide::V23 => 23, Wide::V24 => 24, Wide::V25 => 25, Wide::V26 => 26, Wide::V27 => 27, Wide::V28 => 28, Wide::V29 => 29, Wide::V30 => 30, Wide::V31 => 31, Wide::V32 => 32, Wide::V33 => 33, Wide::V34 => 34, Wide::V35 => 35, Wide::V36 => 36, Wide::V37 => 37, Wide::V38 => 38, Wide::V39 => 39, Wide::V40 => 40, Wide::V41 => 41, Wide::V42 => 42, Wide::V43 => 43, Wide::V44 => 44, Wide::V45 => 45, Wide::V46 => 46, Wide::V47 => 47, Wide::V48 => 48, Wide::V49 => 49, Wide::V50 => 50, Wide::V51 => 51, Wide::V52 => 52, Wide::V53 => 53, Wide::V54 => 54, Wide::V55 => 55, Wide::V56 => 56, Wide::V57 => 57, Wide::V58 => 58, Wide::V59 => 59, Wide::V60 => 60, Wide::V61 => 61, Wide::V62 => 62, Wide::V63 => 63, Wide::V64 => 64, Wide::V65 => 65, Wide::V66 => 66, Wide::V67 => 67, Wide::V68 => 68, Wide::V69 => 69, Wide::V70 => 70, Wide::V71 => 71, Wide::V72 => 72, Wide::V73 => 73, Wide::V74 => 74, Wide::V75 => 75, Wide::V76 => 76, Wide::V77 => 77, Wide::V78 => 78, Wide::V79 => 79, Wide::V80 => 80, Wide::V81 => 81, Wide::V82 => 82, Wide::V83 => 83, Wide::V84 => 84, Wide::V85 => 85, Wide::V86 => 86, Wide::V87 => 87, Wide::V88 => 88, Wide::V89 => 89, Wide::V90 => 90, Wide::V91 => 91, Wide::V92 => 92, Wide::V93 => 93, Wide::V94 => 94, Wide::V95 => 95, Wide::V96 => 96, Wide::V97 => 97, Wide::V98 => 98, Wide::V99 => 99, Wide::V100 => 100, Wide::V101 => 101, Wide::V102 => 102, Wide::V103 => 103, Wide::V104 => 104, Wide::V105 => 105, Wide::V106 => 106, Wide::V107 => 107, Wide::V108 => 108, Wide::V109 => 109, Wide::V110 => 110, Wide::V111 => 111, Wide::V112 => 112, Wide::V113 => 113, Wide::V114 => 114, Wide::V115 => 115, Wide::V116 => 116, Wide::V117 => 117, Wide::V118 => 118, Wide::V119 => 119, Wide::V120 => 120, Wide::V121 => 121, Wide::V122 => 122, Wide::V123 => 123, Wide::V124 => 124, Wide::V125 => 125, Wide::V126 => 126, Wide::V127 => 127, Wide::V128 => 128, Wide::V129(_) => 129 }
+}
+pub open spec fn wide_payload(s: &Wide) -> Seq<u8> {
+    match s { Wide::V129(x) => x.bytes(), _ => Seq::<u8>::empty() }
+}
+impl Wire for Wide { open spec fn bytes(&self) -> Seq<u8> { wide_idx(self).bytes() + wide_payload(self) } }
+pub proof fn lemma_wide_split(s: &Wide, tail: Seq<u8>)
+    ensures s.bytes() + tail == wide_idx(s).bytes() + (wide_payload(s) + tail)
+{
+    broadcast use lemma_cat_assoc, lemma_cat_empty;
+    assert(s.bytes() + tail =~= wide_idx(s).bytes() + (wide_payload(s) + tail));
+}
+//@ impl @derive_expanded.rs :: impl crate::Encode for Wide
+//@ member encode
+//@ head
+        broadcast use lemma_cat_assoc, lemma_cat_empty;
+//@ end
+//@ impl @derive_expanded.rs :: impl crate::Decode for Wide
+//@ extra
+    proof fn prefix_free(a: &Self, b: &Self, ta: Seq<u8>, tb: Seq<u8>) {
+        broadcast use lemma_cat_assoc, lemma_cat_empty;
+        lemma_wide_split(a, ta);
+        lemma_wide_split(b, tb);
+        usize::prefix_free(&wide_idx(a), &wide_idx(b), wide_payload(a) + ta, wide_payload(b) + tb);
+        lemma_inj_usize(wide_idx(a), wide_idx(b));
+        match (a, b) {
+            (Wide::V129(x), Wide::V129(y)) => { u16::prefix_free(x, y, ta, tb); }
             _ => {}
         }
     }
